@@ -79,6 +79,7 @@ type Scenario struct {
 	Initial    []JoinSpec `json:"initial,omitempty"` // CreateTable with players
 	Steps      []Step     `json:"steps"`
 	Tags       []string   `json:"tags,omitempty"`
+	MinChip    int64      `json:"minchip,omitempty"`
 	Interval   int        `json:"interval,omitempty"`
 }
 
@@ -1009,6 +1010,13 @@ func (d *TD) playHand(plan *HandPlan) string {
 	return "stuck"
 }
 
+func minChipOf(sc *Scenario) int64 {
+	if sc.MinChip <= 0 {
+		return 1
+	}
+	return sc.MinChip
+}
+
 // ---- running a scenario ---------------------------------------------------------------
 
 func (d *TD) Run() string {
@@ -1022,7 +1030,7 @@ func (d *TD) Run() string {
 		a.Joins = append(a.Joins, []interface{}{j.ID, j.Seat, j.Chips})
 	}
 	setting := pt.TableSetting{TableID: fmt.Sprintf("t%d", sc.Seed), Meta: pt.TableMeta{CompetitionID: "c", Rule: sc.Rule, Mode: sc.Mode,
-		MaxDuration: 1000000, TableMaxSeatCount: sc.N, TableMinPlayerCount: sc.MinPlayers, MinChipUnit: 1, ActionTime: sc.ActionTime},
+		MaxDuration: 1000000, TableMaxSeatCount: sc.N, TableMinPlayerCount: sc.MinPlayers, MinChipUnit: minChipOf(sc), ActionTime: sc.ActionTime},
 		JoinPlayers: jp, Blind: pt.TableBlindState{Level: int(sc.Blind[0]), Ante: sc.Blind[1], Dealer: sc.Blind[2], SB: sc.Blind[3], BB: sc.Blind[4]}}
 	res := func() (res string) {
 		defer func() {
